@@ -47,6 +47,7 @@ class C02(Spec):
     variant = "plain"
     shard = 12
     timeout = 900
+    env = {"PV_CASE_TIMEOUT": "30"}
     rule = ("Q: requests built with the real client's request builder (all nine methods, with and without a body; paths of 0-3 segments, 0-4 "
             "query parameters incl. empty values, 0-4 cookies, 0-4 registered typed headers out of 14 (made by the header registry, filled with parse(), given to the builder; reported by the handler as the typed object it received writes itself), bodies empty / ending in CR / containing CRLFCRLF and "
             "'0 CRLF CRLF' / arbitrary octets up to 5 kB) sent through a capturing proxy to a live endpoint: the captured "
@@ -160,7 +161,7 @@ def replay(obj):
     case = obj["case"]
     exe = pv.build_harness(s.harness, s.variant)
     drv = pv.build_model_driver()
-    i, _ = pv.run_parallel([exe], [case])
+    i, _ = pv.run_parallel([exe], [case], env=s.env)
     m, _ = pv.run_parallel([drv, s.area], [case])
     ci = s.canon_impl(i[0])
     print("case :", case[:300]); print("impl :", i[0][:400]); print("model:", m[0][:400])
